@@ -36,8 +36,9 @@ Theorem C02_accepts : forall ser deser, (forall d, deser (ser d) = Some d) ->
 Proof. exact echo_exact. Qed.
 Print Assumptions C02_accepts.
 
-(* None is representable only in Optional positions, in both directions *)
-Theorem C02_none_refused_unless_optional : forall ser deser t, no_opt t = true ->
+(* None is representable only in Optional positions (is_opt = _is_optional_type: X | None, Optional[X], and the marker
+   inside an Annotated wrapper), in both directions *)
+Theorem C02_none_refused_unless_optional : forall ser deser t, snd (is_opt t) = false ->
   param_path ser deser t VNone = Reject /\ result_path ser deser true t VNone = Reject.
 Proof. exact none_refused. Qed.
 Print Assumptions C02_none_refused_unless_optional.
@@ -108,6 +109,10 @@ Example ex_spellings :
   has_type (TOpt (TAnn (TMap TStr (TInt true 32)))) (VDict [(VStr [97%N], VInt 1)]) = true /\
   echo ser_id deser_id true (TOpt (TAnn (TMap TStr (TInt true 32)))) (VDict [(VStr [97%N], VInt 1)]) = Accept (VDict [(VStr [97%N], VInt 1)]) /\
   supported (TAnn (TEnum [[82;69;68]%N])) = true /\ supported (TOpt (TAnn TData)) = true /\
+  (* Annotated[Enum | None, m]: optional, and the member comes back as the member *)
+  supported (TAnn (TOpt (TEnum [[82;69;68]%N]))) = true /\ has_type (TAnn (TOpt (TEnum [[82;69;68]%N]))) VNone = true /\
+  echo ser_id deser_id true (TAnn (TOpt (TEnum [[82;69;68]%N]))) VNone = Accept VNone /\
+  echo ser_id deser_id true (TAnn (TOpt (TEnum [[82;69;68]%N]))) (VEnum [82;69;68]%N) = Accept (VEnum [82;69;68]%N) /\
   echo ser_id deser_id true (TOpt (TAnn TData)) (VData [7%N]) = Accept (VData [7%N]).
 Proof. vm_compute. repeat split; reflexivity. Qed.
 Example ex_echo_runs : echo ser_id deser_id true (TOpt TData) (VData [1;2;3]%N) = Accept (VData [1;2;3]%N).
